@@ -121,6 +121,24 @@ def auto_discharge(prog, sink):
             if lv and all(l[0] == "call" and guards.origin_matches(fn, [("call", l[1], l[2])], spec) for l in lv):
                 return True, "index: every value it can hold is the payload of position()/find() (index < len), %d definition(s)" % len(lv)
     if sink.kind == "panic-call" and sink.what in ("slice index", "str index") and len(sink.payload.args) > 1:
+        # `s[..i]` / `s[i + 1..]` with i the payload of `s.find(<one-byte char>)` / `position(..)` on the same s: i < len, and for
+        # a str the found character is one byte wide (an ASCII char literal), so i and i + 1 are character boundaries
+        from . import decision as _dec0
+        rng0 = fn.origin(sink.payload.args[1])
+        if rng0 and rng0[-1][0] == "agg" and rng0[-1][1][1].get("adt", "").rsplit("::", 1)[-1] in ("RangeFrom", "RangeTo") and len(rng0[-1][1][2]) == 1:
+            b0 = rng0[-1][1][2][0]
+            d0 = _dec0.describe_deep(fn, b0, 6)
+            whole0 = _dec0.describe_deep(fn, sink.payload.args[0], 6)
+            m0 = re.match(r"^(?:Add(?:WithOverflow)?\()?(find|rfind|position|rposition)\((.*?),(const '(.)'|closure\{\})\)@Some\.0(?:,const 1\)(?:\.0)?)?$", d0)
+            if m0:
+                plus_one = d0.startswith("Add")
+                searched = m0.group(2)
+                ch = m0.group(4)
+                same = searched == whole0 or searched in (whole0, "deref(%s)" % whole0) or whole0 in ("deref(%s)" % searched,)
+                ascii_ok = sink.what == "slice index" or (ch is not None and ord(ch) < 128)
+                facts_some = True
+                if same and ascii_ok and (not plus_one or rng0[-1][1][1].get("adt", "").endswith("RangeFrom") or sink.what == "slice index"):
+                    return True, "the bound is the payload of %s(%s) on the indexed value%s: within it and, for a str, on a character boundary" % (m0.group(1), ch or "..", " plus the one byte of the found character" if plus_one else "")
         # `s[piece.len()..]` / `s[..piece.len()]` where `piece` is a piece of `s` itself: the first item of a split of s, or
         # (by unwrap_or / the empty-input case) s as a whole -- a piece is never longer than what it was cut from
         from . import paths as _paths
